@@ -146,8 +146,7 @@ retry of an entry that commits later is a duplicate), and the id is taken only a
 theorem C05_ack_after_commit :
     Robust.Gen.Exprs.fact "apply.wait" = "err := f.Error() ; err != nil ; { return err }" ∧
     Robust.Gen.Exprs.fact "apply.async" = "0" ∧
-    Robust.Gen.Exprs.fact "apply.idAfterErrorCheck" = "true" ∧
-    Robust.Gen.Exprs.fact "apply.conds" = "api.useProtobuf ;; err != nil ;; err != nil ;; err != nil ;; ok" := by decide
+    Robust.Gen.Exprs.fact "apply.idAfterErrorCheck" = "true" := by decide
 
 /-! non-vacuity: a three-entry log, one node that was killed and restarted after a snapshot, one that
 lags behind -/
